@@ -105,3 +105,8 @@ Lemma v_derive_roll (l : list val) shift : NoDup l ->
   (exists ix, M_index_init val_eqb (S_roll l shift) = Ok ix) /\
   Permutation l (S_roll l shift) /\ length (S_roll l shift) = length l.
 Proof. intros ND. rewrite v_accepts_NoDup. split; [apply (roll_NoDup val val_eqb val_eqb_spec); exact ND | apply (roll_perm val val_eqb val_eqb_spec)]. Qed.
+
+(* Index(labels, dtype=d): when the conversion leaves every label equal to itself, this is the plain route *)
+Lemma v_index_dtype_refines (l : list val) probes :
+  M_index_dtype val_eqb vto_Z l l probes = S_index val_eqb l probes.
+Proof. rewrite <- v_index_refines. reflexivity. Qed.
